@@ -8,7 +8,9 @@ from .. import driver
 from ..core import Ctx, coq_eval_shards, g_pair, g_str, pmap, proof_step
 
 ALPHA = ["a", " ", "\n", "\r", "\t", "'", '"', "\\", "\x00", "é", "\u2028", "\x7f", "\U0001F40D", "\ud800", "\xad", "n", "x"]
-CHUNKS = ALPHA + ["'''", '"""', " \n", "\t\n", " \t\n", "\\\n", "\r\n", "\\'", '\\"', "''", '""']
+CHUNKS = ALPHA + ["'''", '"""', " \n", "\t\n", " \t\n", "\\\n", "\r\n", "\\'", '\\"', "''", '""',
+                  # text that looks like code (a word, a blank, punctuation; numbers; brackets): nothing that tidies up generated CODE may reach into a literal
+                  "a = 1", "x : y", "f (", "n ,", "[ a ]", "{ x }", "a )", "1 ,2", "k =v"]
 
 
 def nonprintable_ranges():
